@@ -51,6 +51,8 @@ class TheCheck(Check):
     def ac(self, table, flags, defcb, nodes, tag_ws=0.0):
         doc, nlines = G.render_ac(self.rng, nodes, tag_ws)
         op = G.ac_op(flags, defcb, doc, table)
+        if self.rng.random() < 0.12:
+            op = "acpipe" + op[2:]       # the same bytes through a pipe (not seekable): the same reading
         self.expect[op] = ("ac", G.ac_expected(table, flags, defcb, nodes, nlines, G.harness_cb_refuses))
         return op
 
@@ -76,7 +78,9 @@ class TheCheck(Check):
                     else:
                         nm = rng.choice([b"Nope", b"Q"])
                         node = Node("sec", nm, arg, [Node("opt", b"inner", [G.gen_str_arg(rng)])], nm)
-                    ns.insert(rng.randrange(len(ns) + 1), node)
+                    # never behind a section that is not closed: in the file everything behind it is inside it
+                    lim = next((i for i, x in enumerate(ns) if x.kind == "sec" and x.close is None), len(ns))
+                    ns.insert(rng.randrange(lim + 1), node)
                 for x in ns:
                     if x.kind == "sec" and x.body is not None and depth < 3 and G.lower(x.name) in [G.lower(o.name) for o in table]:
                         plant(x.body, depth + 1)
@@ -172,6 +176,20 @@ class TheCheck(Check):
                            "AB": [Node("sec", b"SecA", [Arg(b"x", "bare")],
                                        [Node("sec", b"SecB", [Arg(b"y", "single")], [o], b"secb" if flags else b"SecB")], b"SecA")]}[place]
                     ops.append(self.ac(t, flags, False, doc))
+        # a file that starts with the bytes EF BB BF (a UTF-8 byte order mark): they are part of the first
+        # word - nothing is skipped, nothing is re-read; regular file and pipe
+        BOM = b"\xef\xbb\xbf"
+        for flags in range(4):
+            for defcb in (False, True):
+                for first in (BOM + b"Known", BOM, b"Known"):
+                    t = [Opt(b"Known", G.TAKEALL, True, 0, 0)]
+                    n1, n2 = Node("opt", first, [Arg(b"1", "bare")]), Node("opt", b"Known", [Arg(b"2", "bare")])
+                    n1.line, n2.line = 1, 2
+                    doc = first + b" 1\nKnown 2\n"
+                    for head in ("ac", "acpipe"):
+                        op = head + G.ac_op(flags, defcb, doc, t)[2:]
+                        self.expect[op] = ("ac", G.ac_expected(t, flags, defcb, [n1, n2], 2, G.harness_cb_refuses))
+                        ops.append(op)
         # unknown directives under the four flag / default-handler combinations
         for flags in range(4):
             for defcb in (False, True):
@@ -237,6 +255,8 @@ class TheCheck(Check):
             mainpath = rng.choice([b"/V/main.conf", b"/V/main.conf", b"main.conf", b"/V/etc/q.conf"])
             files = G.split_includes(rng, G.render_ini_lines(rng, nodes, sep), mainpath)
             op = G.inif_op(sep, mainpath, files)
+            # (no MAIN file behind a pipe: qfile_load sizes its read by fstat and delivers an empty text
+            #  for a FIFO - an observation about qfile.c outside C20, see DESIGN.md 12.3)
             self.expect[op] = ("ini", G.ini_expected(nodes, {}))
             ops.append(op)
         sts.append(Stream("ini-include-grammar", ops))
@@ -290,7 +310,7 @@ class TheCheck(Check):
 
     def classify(self, op, detail):
         w = op.split()
-        if w[0] in ("ini", "inif"):
+        if w[0] in ("ini", "inif", "inifp"):
             return "qconfig:" + ("crash" if "died" in detail else "entries")
         if "bool" in detail:
             return "qaconf:bool"
